@@ -26,7 +26,11 @@ def main(argv):
             return mod.replay(argv[argv.index("--replay") + 1])
         return mod.main(tier)
     except SystemExit as e:
-        return int(e.code or 0)
+        # drivers RETURN their verdict; an exit raised underneath them (e.g. the implementation's Q element run
+        # in this process) must never look like a pass
+        traceback.print_exc()
+        print(f"MACHINERY-FAILURE property={pid} (stray SystemExit {e.code!r})")
+        return 2
     except BaseException:  # noqa: BLE001  machinery failure, never a verdict
         traceback.print_exc()
         print(f"MACHINERY-FAILURE property={pid}")
